@@ -28,7 +28,7 @@ RULE = ('(a) random histories of 1-12 deferred-writer operations over 1-4 paths 
         'file system (/dev/shm) so that shutil.move copies. (c) every library writer with default arguments under the audit '
         'hook. (d) the real CLI in a scratch directory on inputs engineered to emit a known multiset of warnings x -maxwarn '
         'specifications, with pre-existing output files. Non-trivial history = >= 1 pre-existing destination and >= 2 '
-        'pending files. distinct = distinct histories / (history, crash point) pairs / CLI scenarios.')
+        'pending files. distinct = distinct histories / (history, crash point) pairs / CLI scenarios. Also: up to three rounds (operations + write()/close()) on ONE writer object.')
 ASSUMPTIONS = ['interruption model: process death between two Python-level file-system calls, or an exception delivered at such a '
                'call (plus a partially copied file when the '
                'temporary directory is on another file system); power loss / fsync ordering is out of reach',
